@@ -530,11 +530,17 @@ leaps_before(struct dt_dt_s d)
 		on = res + 1 < nleaps && leaps_d[res + 1] == d.d.daisy;
 		break;
 	case DT_SEXY:
-	case DT_SEXYTAI:
-		res = leaps_before_si32(leaps_s, nleaps, (int32_t)d.sexy);
+	case DT_SEXYTAI: {
+		/* leaps_s is a 32-bit table, the last entry stays in force */
+		const int32_t sx =
+			d.sexy > INT32_MAX ? INT32_MAX :
+			d.sexy < INT32_MIN ? INT32_MIN : (int32_t)d.sexy;
+
+		res = leaps_before_si32(leaps_s, nleaps, sx);
 		on = (res + 1U < nleaps) &&
-			(leaps_s[res + 1] == (int32_t)d.sexy);
+			((dt_ssexy_t)leaps_s[res + 1] == d.sexy);
 		break;
+	}
 	default:
 		res = 0;
 		on = false;
